@@ -2,10 +2,12 @@ import Std.Data.HashMap
 import Driver.Util
 import Driver.C16
 import Driver.C06
+import Driver.C11
 open Driver
 
 def allEntries : List Entry := Driver.C16.entries
   ++ Driver.C06.entries
+  ++ Driver.C11.entries
 
 def table : Std.HashMap String Handler :=
   allEntries.foldl (fun m e => m.insert (e.kind ++ " " ++ e.op) e.run) {}
